@@ -1359,8 +1359,12 @@ func (s *sim) finish(i int, outcome string, replyKeys []string) {
 				s.hit("C07.refresh-attempt-failed")
 			}
 		}
+		ext := ""
+		if kk := minU32(ch.k, 31); uint64(s.ms)<<kk >= 1<<32 || ch.k >= 32 {
+			ext = ":extreme-arith"
+		}
 		if expect && attempts != 1 {
-			s.fail("C07.missing-refresh", fmt.Sprintf("k%d", minU32(ch.k, 3)), "expected a refresh of ch%d (DE calls=%d/%d, k=%d, since last response %v > window %v), saw %d NewSubConn", ch.id, ch.n, s.ucalls, ch.k, verifClock.Sub(ch.t0), s.window(ch.k), attempts)
+			s.fail("C07.missing-refresh", fmt.Sprintf("k%d", minU32(ch.k, 3))+ext, "expected a refresh of ch%d (DE calls=%d/%d, k=%d, since last response %v > window %v), saw %d NewSubConn", ch.id, ch.n, s.ucalls, ch.k, verifClock.Sub(ch.t0), s.window(ch.k), attempts)
 		}
 		if !expect && attempts != 0 {
 			why := "rule"
@@ -1377,7 +1381,7 @@ func (s *sim) finish(i int, outcome string, replyKeys []string) {
 			if len(s.newInOp) == 1 {
 				// undo the optimistic bookkeeping for the message
 			}
-			s.fail("C07.unexpected-refresh", why, "unexpected refresh attempt on ch%d (outcome %s, DE calls=%d/%d, k=%d, since last response %v, window %v)", ch.id, outcome, ch.n, s.ucalls, ch.k, verifClock.Sub(ch.t0), s.window(ch.k))
+			s.fail("C07.unexpected-refresh", why+ext, "unexpected refresh attempt on ch%d (outcome %s, DE calls=%d/%d, k=%d, since last response %v, window %v)", ch.id, outcome, ch.n, s.ucalls, ch.k, verifClock.Sub(ch.t0), s.window(ch.k))
 		}
 		if len(s.newInOp) == 1 {
 			r := s.newInOp[0]
@@ -1526,6 +1530,7 @@ func simBias(prop string, rng *vRand) map[string]bool {
 		pick("stale", 50)
 		pick("refresh", 40)
 	case "C07":
+		pick("extreme", 12)
 		pick("refresh", 88)
 		pick("factoryfail", 30)
 		pick("keys", 40)
@@ -1599,6 +1604,17 @@ func simRunCase(env vEnv, out *vOut, idx int64) *sim {
 			}
 		}
 	}
+	if b["extreme"] {
+		// extreme stratum of C07 (DESIGN §3.2): huge detection windows and long
+		// chains of refreshes without a response; one channel so that every call
+		// lands on it
+		cp.MinSize, cp.MaxSize = 1, 1
+		cp.MaxConcurrentStreamsLowWatermark = 100
+		cp.UnresponsiveCalls = 1
+		cp.UnresponsiveDetectionMs = []uint32{1, 1000, 65536, 100000, 1 << 20, 1<<31 + 5, 1<<32 - 1}[rng.Intn(7)]
+		delete(b, "rr")
+		delete(b, "factoryfail")
+	}
 	if b["rr"] {
 		cp.BindPickStrategy = pb.ChannelPoolConfig_ROUND_ROBIN
 	} else if rng.Chance(30) {
@@ -1644,6 +1660,9 @@ func simRunCase(env vEnv, out *vOut, idx int64) *sim {
 		}
 	} else {
 		s.resolve(false, cfg, true)
+	}
+	if b["extreme"] && s.viol == nil && !s.dead {
+		s.refreshChain(1 + rng.Intn(45))
 	}
 	nOps := 30 + rng.Intn(90)
 	for i := 0; i < nOps && s.viol == nil && !s.dead; i++ {
@@ -2019,8 +2038,13 @@ func (s *sim) stepAdvance() {
 		// land exactly on / just before / just after some channel's window
 		// boundary as seen by the *next* operation (each op advances 1ns first)
 		p := s.pool()
-		if len(p) > 0 {
+		if len(p) > 0 && s.window(p[0].k) < time.Duration(1)<<62 {
+			// (never advance by a saturated window: elapsed times beyond 2^63 ns are
+			// not representable and not part of any realistic or extreme stratum)
 			ch := p[rng.Intn(len(p))]
+			if s.window(ch.k) >= time.Duration(1)<<62 {
+				ch = p[0]
+			}
 			target := ch.t0.Add(s.window(ch.k)).Add(time.Duration(rng.Intn(3)-1) * time.Nanosecond)
 			d := target.Sub(verifClock) - time.Nanosecond
 			if d > 0 {
@@ -2131,4 +2155,60 @@ func TestVerifPoolSim(t *testing.T) {
 	}
 	out.Extra["essential"] = simEssential[env.Prop]
 	out.write(env.Out)
+}
+
+// refreshChain: directed macro of the extreme stratum - n times: place a call
+// with an expired deadline, advance just past (or exactly to) the channel's
+// current window, complete it with a client-side deadline error, and let the
+// replacement become READY. The ordinary rule monitors judge every step.
+func (s *sim) refreshChain(n int) {
+	for i := 0; i < n && s.viol == nil && !s.dead; i++ {
+		p := s.pool()
+		if len(p) == 0 {
+			return
+		}
+		ch := p[0]
+		for guard := 0; !ch.ready() && guard < 6 && s.viol == nil && !s.dead; guard++ {
+			switch ch.conn.state {
+			case connectivity.Idle:
+				s.report(ch.conn, connectivity.Connecting)
+			default:
+				s.report(ch.conn, connectivity.Ready)
+			}
+		}
+		if !ch.ready() || s.viol != nil || s.dead || len(s.pubs) == 0 {
+			return
+		}
+		before := len(s.calls)
+		s.start("/v/plain", "", s.pubs[len(s.pubs)-1], true, true, -time.Nanosecond, nil, false)
+		if s.viol != nil || s.dead || len(s.calls) != before+1 {
+			return
+		}
+		win := s.window(ch.k)
+		var dt time.Duration
+		if win >= time.Duration(1<<62) {
+			dt = time.Hour
+		} else {
+			target := ch.t0.Add(win).Add(time.Duration(s.rng.Intn(3)) * time.Nanosecond) // window, +1ns, +2ns as seen by the completion
+			dt = target.Sub(verifClock) - time.Nanosecond
+		}
+		if dt > 0 {
+			s.say("advance %v (k=%d window=%v)", dt, ch.k, win)
+			verifClock = verifClock.Add(dt)
+		}
+		if s.window(ch.k) >= time.Duration(1)<<32*time.Millisecond || ch.k >= 20 {
+			s.hit("C07.extreme-window")
+		}
+		s.finish(len(s.calls)-1, "de", nil)
+		if s.viol != nil || s.dead {
+			return
+		}
+		if ch.repl != nil {
+			r := ch.repl
+			s.report(r, connectivity.Connecting)
+			if s.viol == nil && !s.dead {
+				s.report(r, connectivity.Ready)
+			}
+		}
+	}
 }
